@@ -102,11 +102,24 @@ theorem replacement_schedules_everything (st : State) (w h bpp : Int) (tok : Nat
   refine ⟨hM, hC, hdx, hdy, ?_, ?_⟩
   · intro hn
     rw [h.2.2.2.2.2.1] at hn
-    rw [hp, if_pos hn]
+    rw [hp, if_pos (by simp [hn])]
   · intro hs
     rw [h.2.2.2.1] at hs
     rw [h.2.2.2.2.2.2.2.2.2.1, h.2.2.2.2.2.2.2.2.2.2.1]
     simp [hs]
+
+/-- with fixes/C16-late-setencodings-size.diff (`pendingForAll`, regenerated from main.c) the flag is
+raised for EVERY open client, so a viewer that announces resize support only after the replacement
+(SetEncodings arriving late) is still told the new size first (`size_message_first` applies as soon as
+it has sent its SetEncodings) -/
+theorem replacement_raises_pending_for_all (hflag : VncModel.Gen.C16.pendingForAll = true)
+    (st : State) (w h bpp : Int) (tok : Nat) (d : Client)
+    (hd : d ∈ (newFramebuffer st w h bpp tok).clients) (ho : d.base.isOpen = true) :
+    d.pending = true := by
+  obtain ⟨c, _, h⟩ := mem_newFramebuffer hd
+  have hco : c.base.isOpen = true := by rw [← h.2.2.1]; exact ho
+  obtain ⟨_, _, _, _, _, _, hp⟩ := h.2.2.2.2.2.2.2.2.2.2.2.1 hco
+  rw [hp, if_pos (by simp [hflag])]
 
 /-- **size_message_first**: a client that announced resize support and has a size change pending
 (by `replacement_schedules_everything`: every such client after a replacement) receives, as the
